@@ -23,4 +23,15 @@ PROPS = {
   'explanation': 'C03_roundtrip_raw/C03_roundtrip: all entry lists with fields in their Go ranges, any order; C03_encoder_is_spec/C03_decoder_reads_spec: '
                  'interoperability with every spec-conforming encoder/decoder; model compared byte-for-byte / entry-for-entry with SerializeEntries/DeserializeEntries.',
  },
+ 'C01': {
+  'rule': 'every tile and every ID of zooms 0..6 (quick) / 0..10 (thorough); per zoom 7..31 structured coordinates (single bits, 2^k-1, 2^k+1, '
+          'complements, alternating bit patterns, corners) and structured IDs (block boundaries, d*4^k and neighbours), random coordinates and IDs, '
+          'parent of each; out-of-domain probes (z up to 255, x,y >= 2^z, IDs around and beyond base 32) compared model vs implementation only. '
+          'Non-trivial: zoom >= 2; distinct by case line',
+  'trusted_base': ['the spec curve hidx/hxy (coq/Model/Hilbert.v) is the textbook recursive Hilbert curve; that it is THE PMTiles v3 numbering is by transcription '
+                   '(cross-checked by the harness against the fixed IDs of the v3 specification and the test suite)'],
+  'assumptions': [],
+  'explanation': 'All six clauses are proved for every z <= 31, x,y < 2^z and every id < base 32 on the Go-level model with explicit wrap-around; '
+                 'the model is compared with ZxyToID/IDToZxy/ParentID on every generated case and the implementation is checked against an independent recursive Hilbert index.',
+ },
 }
